@@ -180,10 +180,13 @@ through the main loop (Proofs/WorldWhole*.lean).
   (`C01_noDiscard_of_syntax`: true of every rule tree that contains no `discard`).  Discard is
   excluded over the whole configuration; lists that end in a discard are treated, per message and for
   at most one fault, by `C01_single_fault_discard`.
-* `Proofs.wholeRewrite env orc expr dir name c`: what `message_write` renders for the file `name` of
+* `Proofs.wholeRewrite env orc expr dir name c as`: what `message_write` renders for the file `name` of
   `dir` with content `c` once the actions of `expr` (label, add-header) have been interpolated - `c`
-  itself when the rules do not act; `Proofs.WholeVersion env orc exprs c c'`: `c'` is `c` after zero or
-  more such complete rewrites by rules of `exprs` (a message that is moved into a maildir walked
+  itself when the rules do not act - when the operating system answers the questions of evaluation (`command`,
+  `isdirectory`, file-time `date` conditions: they are evaluated inside the run, `Model.evalP`) with `as`; for a rule
+  tree without such conditions `as` is irrelevant (`Proofs.wholeRewrite_asksFree`).
+  `Proofs.WholeVersion env orc exprs c c'`: `c'` is `c` after zero or
+  more such complete rewrites by rules of `exprs`, each for some answers (a message that is moved into a maildir walked
   later is processed again).
 * The model-internal registry stays consistent with the world under EVERY fault plan (it is updated
   from the ghost location, which the proof shows to be exact); entries the world has and the registry
@@ -206,9 +209,11 @@ theorem C01_start_of_parse (md : Maildir) (d : Handle) (name content : Bytes) (w
   ⟨Proofs.whole_start_of_parse md d name content w fid plan 0 [] hd hp hwf hl hf hc ms hr m fl,
    (Proofs.whole_start_of_parse md d name content w fid plan 0 [] hd hp hwf hl hf hc ms hr m fl).start⟩
 
-/-- **One message.**  `processMessage` under EVERY fault plan, started in a world where the
+/-- **One message.**  `processMessage` under EVERY fault plan (faults may also hit the calls of evaluation: `fork`,
+`waitpid`, `stat`, ...), started in a world where the
 message's entry is bound to a complete file: after every call some entry is bound to a file whose
-visible content is the message or its complete rewrite, and every OTHER entry that existed is bound
+visible content is the message or its complete rewrite (for some answers `as` of the operating system to the questions
+of evaluation), and every OTHER entry that existed is bound
 to the same file, with the same content. -/
 theorem C01_message_no_loss (env : PEnv) (orc : EvalOracles) (expr : Expr) (md : Maildir) (name : Bytes) (st : MainSt)
     (w : World) (plan : Plan) (d : Handle) (content : Bytes) (fid : Nat)
@@ -218,11 +223,11 @@ theorem C01_message_no_loss (env : PEnv) (orc : EvalOracles) (expr : Expr) (md :
     (hl : w.lookup md.path name = some fid) (hlt : fid < w.nextFid) (hf : w.file fid = some ⟨content, content⟩)
     (hnd : Proofs.WholeNoDiscard env orc expr) :
     ∀ w' ∈ (runPlan plan (processMessage env orc expr md name st) w 0 []).2.2,
-      Proofs.Intact w' [content, Proofs.wholeRewrite env orc expr md.path name content] ∧
+      (∃ as, Proofs.Intact w' [content, Proofs.wholeRewrite env orc expr md.path name content as]) ∧
       ∀ q m g, (q, m) ≠ (md.path, name) → w.lookup q m = some g →
-        w'.lookup q m = some g ∧ (g < w.nextFid → w'.file g = w.file g) := fun w' hw' =>
-  ⟨(Proofs.whole_message_no_loss env orc expr md name st w plan hd hp hwf hfc hl hlt hf hnd w' hw').1,
-   (Proofs.whole_message_no_loss env orc expr md name st w plan hd hp hwf hfc hl hlt hf hnd w' hw').2.2⟩
+        w'.lookup q m = some g ∧ (g < w.nextFid → w'.file g = w.file g) := fun w' hw' => by
+  obtain ⟨⟨as, h1, _⟩, h2⟩ := Proofs.whole_message_no_loss env orc expr md name st w plan hd hp hwf hfc hl hlt hf hnd w' hw'
+  exact ⟨⟨as, h1⟩, h2⟩
 
 /-- **One maildir.**  `walk` under EVERY fault plan, from a world with which the registry is
 consistent and in which the maildir's handle is open on its path (`Proofs.WholeMdOk`): after EVERY
@@ -296,7 +301,9 @@ not have the error flag, then (`Proofs.WholeFinalPlace`) the registry and the wo
 in the directory of the last move/flag/flags action, under its own or a formerly free name, bound to a
 file that holds the rewritten message if `ml` contains a label or add-header (in any case the
 original or the rewritten bytes); the original entry is free unless it is the final one; every other
-entry of every directory is bound as before.
+entry of every directory is bound as before.  The verdict is the pure `Proofs.verdict`: the statement is for rule trees
+that ask the operating system nothing (`Proofs.asksFree`: no `command`, `isdirectory`, file-time `date` condition), for
+which it is the verdict of every run (`Proofs.verdictAt_asksFree`).
 
 With `C04_error_iff_partial` (exit status 0 iff no cause of the error flag occurred, in particular no
 message's error bit) this is `C01_main_exit0` message by message: "final place" is a notion of one
@@ -308,26 +315,28 @@ theorem C01_message_exit0 (env : PEnv) (orc : EvalOracles) (expr : Expr) (md : M
     (hwf : pathjoin PATH_MAX md.root (subdirName md.subdir) = some md.path)
     (hfc : st.files.get md.path name = some content)
     (hl : w.lookup md.path name = some fid) (hf : w.file fid = some ⟨content, content⟩) (hc : Proofs.WholeClean w)
+    (hfree : Proofs.asksFree expr = true)
     (hvd : Proofs.verdict env orc expr md.path name content = .act ml msgs fl) (hml : Proofs.NoDiscard ml)
     (hdry : env.dryrun = false) (hpl : Proofs.World.SingleFault plan)
     (he : (runPlan plan (processMessage env orc expr md name st) w 0 []).1.1.error = false) :
     Proofs.WholeFinalPlace w md name content ml (msgs 0) (runPlan plan (processMessage env orc expr md name st) w 0 []).1
       (runPlan plan (processMessage env orc expr md name st) w 0 []).2.1 :=
-  Proofs.whole_message_exit0 env orc expr md name st w plan hd hp hwf hfc hl hf hc hvd hml hdry hpl he
+  Proofs.whole_message_exit0 env orc expr md name st w plan hd hp hwf hfc hl hf hc hfree hvd hml hdry hpl he
 
 /-- Non-vacuity: the rules of the example act on its first message, without discard; not a dry run;
 the plan that fails call 5 with `EIO` has at most one fault. -/
 example : (∃ ml msgs fl, Proofs.verdict Proofs.exEnv Proofs.wholeExOrc Proofs.wholeExExpr Proofs.exMd.path Proofs.exName Proofs.exOrig =
-      .act ml msgs fl ∧ Proofs.NoDiscard ml) ∧
+      .act ml msgs fl ∧ Proofs.NoDiscard ml) ∧ Proofs.asksFree Proofs.wholeExExpr = true ∧
     Proofs.exEnv.dryrun = false ∧ Proofs.World.SingleFault (Proofs.World.singlePlan 5 (.fail "EIO")) := by
-  refine ⟨?_, rfl, Proofs.World.singleFault_single _ _⟩
+  refine ⟨?_, by decide, rfl, Proofs.World.singleFault_single _ _⟩
   have hacts : (Proofs.verdict Proofs.exEnv Proofs.wholeExOrc Proofs.wholeExExpr Proofs.exMd.path Proofs.exName Proofs.exOrig).acts = true := by
     unfold Proofs.verdict Proofs.msVerdict Proofs.wholeExExpr
     simp only [eval]
     decide +kernel
   cases h : Proofs.verdict Proofs.exEnv Proofs.wholeExOrc Proofs.wholeExExpr Proofs.exMd.path Proofs.exName Proofs.exOrig with
   | act ml msgs fl =>
-    exact ⟨ml, msgs, fl, rfl, Proofs.whole_noDiscard_of_syntax _ _ _ (by decide) _ _ _ _ _ _ h⟩
+    exact ⟨ml, msgs, fl, rfl, Proofs.whole_noDiscard_of_syntax _ _ Proofs.wholeExExpr (by decide) _ _ _ [] _ _ _
+      (by rw [Proofs.verdictA_asksFree _ _ _ (by decide)]; exact h)⟩
   | unparsable => rw [h] at hacts; cases hacts
   | «nomatch» => rw [h] at hacts; cases hacts
   | error => rw [h] at hacts; cases hacts
@@ -347,7 +356,7 @@ example :
     r.1.1.error = true ∧ r.2.1.lookup Proofs.exNew Proofs.exName = some 0 ∧
       r.1.1.files.get Proofs.exNew Proofs.exName = some Proofs.exOrig ∧
       (r.2.1.dir Proofs.exCur).map (·.map (·.2)) = some [2] ∧ r.2.1.file 2 = some ⟨[], []⟩ := by
-  simp only [processMessage, eval]
+  simp only [processMessage, evalP, evalTop, evalT, eval]
   decide +kernel
 
 /-! ## exit status 0 of a whole run (maildir mode, at most one fault)
@@ -378,13 +387,15 @@ is processed twice it becomes a statement about the run (Proofs/WorldExit*.lean)
   occur. -/
 
 /-- **Exit status 0 means every message is at its final place**: maildir mode, real run (no `-d`, no `-n`),
-rules without discard, a plan with at most one fault, no message processed twice (`exit0_Good`): if `main`
+rules without discard that ask the operating system nothing (`Proofs.asksFree`: `exit0_Placed` speaks about the pure
+verdict), a plan with at most one fault, no message processed twice (`exit0_Good`): if `main`
 returns 0 then EVERY message of the initial registry that lies in a configured maildir is placed as the rules
 say, in the world and in the registry `main` ends with - composed from `C01_message_exit0` through `walk`,
 the loops over paths and blocks, with the stickiness of the error flag (`C04_error_flag_inert`). -/
 theorem C01_main_exit0_partial (env : PEnv) (orc : EvalOracles) (confOk : Bool) (conf : List ConfBlock) (files : Files)
     (input : Bytes) (w : World) (plan : Plan)
     (hm : env.stdinMode = false) (hsyn : env.syntaxOnly = false) (hdry : env.dryrun = false)
+    (hfree : ∀ b ∈ conf, Proofs.asksFree b.expr = true)
     (hnd : ∀ b ∈ conf, Proofs.WholeNoDiscard env orc b.expr) (hreg : Proofs.WholeReg w files)
     (hgood : Proofs.exit0_Good ⟨env, orc, Proofs.exit0_dirsOf conf, files, w⟩)
     (hpl : Proofs.World.SingleFault plan)
@@ -392,7 +403,7 @@ theorem C01_main_exit0_partial (env : PEnv) (orc : EvalOracles) (confOk : Bool) 
     ∀ D e n c, (D, e) ∈ Proofs.exit0_dirsOf conf → files.get D n = some c →
       Proofs.exit0_Placed env orc e D n c (runPlan plan (mainP env orc confOk conf files input) w 0 []).1.2
         (runPlan plan (mainP env orc confOk conf files input) w 0 []).2.1 :=
-  (Proofs.exit0_main_exit0 env orc confOk conf files input w plan hm hsyn hdry hnd hreg hgood hpl h0).1
+  (Proofs.exit0_main_exit0 env orc confOk conf files input w plan hm hsyn hdry hfree hnd hreg hgood hpl h0).1
 
 /-- The hypotheses on configuration, registry and world, decidably. -/
 theorem C01_good_check (C : Proofs.exit0_Ctx) (h : Proofs.exit0_goodOk C = true) : Proofs.exit0_Good C :=
@@ -416,12 +427,13 @@ theorem C01_good_of_outside (C : Proofs.exit0_Ctx) (h1 : (C.dirs.map (·.1)).Nod
 (both messages are sent to `/y/new`, which is not configured): maildir mode, real run, no discard, consistent
 registry, `exit0_Good`; the fault-free plan has at most one fault. -/
 example : Proofs.exEnv.stdinMode = false ∧ Proofs.exEnv.syntaxOnly = false ∧ Proofs.exEnv.dryrun = false ∧
+    (∀ b ∈ Proofs.exit0_exConf, Proofs.asksFree b.expr = true) ∧
     (∀ b ∈ Proofs.exit0_exConf, Proofs.WholeNoDiscard Proofs.exEnv Proofs.wholeExOrc b.expr) ∧
     Proofs.WholeReg Proofs.wholeExWorld Proofs.wholeExFiles ∧
     Proofs.exit0_Good ⟨Proofs.exEnv, Proofs.wholeExOrc, Proofs.exit0_dirsOf Proofs.exit0_exConf, Proofs.wholeExFiles,
       Proofs.wholeExWorld⟩ ∧
     Proofs.World.SingleFault Plan.none :=
-  ⟨rfl, rfl, rfl, Proofs.exit0_ex_nd, Proofs.wholeEx_reg, Proofs.exit0_ex_good, Proofs.World.singleFault_none⟩
+  ⟨rfl, rfl, rfl, by decide, Proofs.exit0_ex_nd, Proofs.wholeEx_reg, Proofs.exit0_ex_good, Proofs.World.singleFault_none⟩
 
 /-- The full statement without the side condition on the rules (`norev`) - kept as a named proposition:
 exit status 0 of a real run with at most one fault, rules without discard, implies that every registered
